@@ -900,13 +900,14 @@ class CaseRun:
         for side in self.sides:
             found[side.direction] = self._judge_sender(side, pm)
         lost = {sd.direction: (not is_open(sd.ep) or bool(sd.ep.close_requested) or bool(sd.ep.lost)) for sd in self.sides}
+        pair_down = any(lost.values())      # one end gone = the connection is gone (the other end may not know yet)
         for side in self.sides:
             d = side.direction
             c = found[d]
             if c is None:
                 continue
             pos, _, clause, rec, what, detail, soft = c
-            if soft and lost[d]:
+            if soft and pair_down:
                 R.count("soft_problems_on_lost_connections")
                 continue
             self.violation(d, clause, rec, what, detail)
@@ -1066,6 +1067,41 @@ class CaseRun:
                       "frames": m.frames, "lens": m.lens[:12]})
             if rec["ret_bad"]:
                 cand(m.first_frame, "sender/stream-return", rec, rec["ret_bad"])
+        # the message the stream stops in (if any): what is on the wire of it must be a PREFIX of what was sent
+        # (compressed: must inflate to a prefix) - a truncated stream does not hide a corrupt encoder
+        if not broke and len(msgs) < len(sent):
+            rec = sent[len(msgs)]
+            part = [f for k, f in enumerate(frames) if f.opcode in (0, 1, 2) and owner[k] == len(msgs)
+                    and (frame_msg[k] == len(msgs))]
+            pieces = [(f.payload if side.apply_mask() else f.raw_payload) for f in part]
+            first_rsv1 = bool(part[0].rsv & 4) if part else None
+            first_pos = next((k for k, f in enumerate(frames) if part and f is part[0]), nfr)
+            sc = cw.scan_frame(tail, 0) if tail else None
+            if sc is not None and sc[2][2] in (0, 1, 2) and (part or sc[2][2] != 0):
+                hdr_end, _end, (t_fin, t_rsv, t_op, t_masked, t_key, t_len, _form) = sc
+                body = tail[hdr_end:]
+                if t_masked and side.apply_mask():
+                    body = cw.xor_fast(body, t_key)
+                pieces.append(body)
+                if first_rsv1 is None:
+                    first_rsv1 = bool(t_rsv & 4)
+            have = b"".join(pieces)
+            if first_rsv1 is not None and not (rec["xmask"]):
+                R.count("partial_messages_checked")
+                plain = None
+                if first_rsv1:
+                    if inflater is not None:
+                        try:
+                            plain = inflater.inflate_partial(have)
+                        except zlib.error as e:
+                            cand(first_pos, "sender/payload", rec, "unfinished RSV1 message #%d: the %d octets written so far do "
+                                 "not inflate: %s" % (len(msgs), len(have), e), {"wire": have[:64].hex()})
+                else:
+                    plain = have
+                if plain is not None and not rec["payload"].startswith(plain):
+                    cand(first_pos, "sender/payload", rec, "unfinished message #%d: the %d octets written so far are not a "
+                         "prefix of the %d octets sent" % (len(msgs), len(plain), rec["len"]),
+                         {"sent_head": rec["payload"][:48].hex(), "wire_head": plain[:48].hex()})
         # a send API that raised on an open connection: that message is (at best) incomplete on the wire
         for sd, kind, e, conn_lost, rec in self.send_raised:
             if sd is side and not conn_lost:
@@ -1095,7 +1131,7 @@ class CaseRun:
                 break
         if not cands:
             return None
-        cands.sort(key=lambda c: (c[0], c[1]))
+        cands.sort(key=lambda c: (c[0], c[6], c[1]))        # earliest first; at the same place a hard problem wins
         pos, order, clause, rec, what, detail, soft = cands[0]
         return (pos, order, clause, rec, what, dict(detail or {}, later_problems=[c[2] for c in cands[1:6]]), soft)
 
